@@ -67,6 +67,7 @@ def C06(prog: Program, run: Run, tier: str) -> None:
         "non-final write is behind a comparison with min_write_sz (maybe_write guard, can_flush returns, _flush_data only "
         "behind can_flush); STRIDE part-id stride equals credits per chunk, first id min_part+1, sub-stream advance",
     )
+    run.add(round3.mark_final_last_only(prog) + round3.partial_forwards_writer(prog), "R-MPU mark_final only for the last sub-stream; R-FORWARD partial() operators carry the writer")
     run.floor("R-MPU|", 34)
 
 
@@ -84,11 +85,12 @@ def C18(prog: Program, run: Run, tier: str) -> None:
     )
     run.add(cog.rule_filesink(prog), "R-MPU SINK file sink appends to the destination only after the first part replaced it, walks the remaining parts in the given order and unlinks them; receipts name part number and path")
     run.floor("R-LOCK|", 8)
+    run.add(round3.sink_writes_always(prog), "R-MPU SINK the part is written on every path before its receipt is returned")
     run.floor("R-ACCESSOR|", 10)
 
 
 # ---------------------------------------------------------------------------------------------
-from .rules import axis, extra, findings, forward, generic, guards, rounding, specific  # noqa: E402
+from .rules import axis, extra, findings, forward, generic, guards, round3, rounding, specific  # noqa: E402
 
 AXIS_DESC = (
     "R-AXIS x/y axis-tag consistency: T1 tagged value in a slot of the opposite axis (Affine, xy_/yx_, BoundingBox, "
@@ -144,6 +146,7 @@ def C03(prog: Program, run: Run, tier: str) -> None:
     run.add(generic.rule_kind(prog, {"roi"}), "R-KIND functions named for a mid-point return half the sum of the two ends, functions named for a span/shape return their difference")
     run.floor("R-ROUND|", 10)
     run.add(findings.boundary_sampling(prog), "R-GUARDSEQ absence-of-guard clause behind a recorded finding (see known_findings.json)")
+    run.add(round3.pad_before_align(prog), "R-ORDER padding precedes alignment")
     run.floor("R-AXIS|", 30)
 
 
@@ -176,6 +179,7 @@ def C05(prog: Program, run: Run, tier: str) -> None:
     run.add(_only(rounding.rule_round(prog, {"cog._shared", "types"}), "cog._shared", "types:Shape2d"), ROUND_DESC)
     run.add(_fwd(prog, {"cog._tifffile", "cog._shared"}), FWD_DESC)
     run.floor("R-API|", 30)
+    run.add(round3.predictor_axis_agreement(prog) + round3.partial_forwards_writer(prog), "R-SIBLING both tile compressors difference along the same axis; partial() operators carry the writer")
     run.floor("R-FLOW16|", 7)
 
 
@@ -186,6 +190,7 @@ def C07(prog: Program, run: Run, tier: str) -> None:
     run.add(_only(crsguard.rule_retag(prog, {"geom"}), "geom:Geometry.to_crs", "geom:Geometry._to_crs", "geom:Geometry.segmented", "geom:Geometry.transform"), "R-RETAG result tagged with the target CRS")
     run.add(_fwd(prog, {"geom"}), FWD_DESC)
     run.floor("R-DISPL|", 4)
+    run.add(round3.to_crs_returns_self(prog), "R-GUARDSEQ to_crs returns the receiver only under self.crs == crs")
     run.floor("R-GUARDSEQ|", 6)
 
 
@@ -213,6 +218,7 @@ def C09(prog: Program, run: Run, tier: str) -> None:
             + _only(valueobj.rule_pickle_state(prog, {"geobox", "gcp", "math"}), "geobox:", "gcp:", "math:Poly2d"),
             "R-VALUEOBJ/R-PICKLE a GeoBox / GCPGeoBox cached by the accessor survives pickling: custom pickle hooks pass every constructor parameter that feeds __eq__, no closures in state, no identity comparison")
     run.floor("R-KEYS|", 25)
+    run.add(round3.ds_passes_destination(prog), "R-SIBLING every variable is reprojected onto the destination geobox computed for the dataset")
     run.floor("R-SIBLING|", 9)
 
 
@@ -232,6 +238,7 @@ def C11(prog: Program, run: Run, tier: str) -> None:
     run.add(_only(_fwd(prog, {"overlap", "geobox"}), "overlap:compute_output_geobox", "geobox:GeoBox.to_crs", "geobox:GeoBoxBase.footprint"), FWD_DESC)
     run.add(_only(axis.rule_axis(prog, {"overlap", "crs", "geobox"}), "overlap:compute_output_geobox", "overlap:get_scale", "crs:", "geobox:GeoBox.from_bbox", "geobox:GeoBoxBase.footprint"), AXIS_DESC)
     run.add([i for i in valueobj.rule_cache(prog) if "KEYCANON" not in i.construct], "R-CACHE the transformer cache key is complete (from, to, always_xy) and its id() keys are pinned")
+    run.add(round3.shape_beats_resolution(prog), "R-GUARDSEQ a numeric resolution is used only when no shape was given")
     run.floor("R-GUARDSEQ|", 6)
 
 
@@ -244,6 +251,7 @@ def C12(prog: Program, run: Run, tier: str) -> None:
     run.add(_only(guards.identity_shortcircuit(prog), "geobox:GeoBoxBase.footprint"), "R-GUARDSEQ the footprint used by the general path is densified by the projection call on every branch")
     run.floor("R-EMPTY|", 1)
     run.add(findings.lonlat_footprint_validity(prog), "R-GUARDSEQ absence-of-guard clause behind a recorded finding (see known_findings.json)")
+    run.add(round3.pix_bbox_half_open(prog) + round3.tiles_yield_under_test(prog), "R-ROUND tile box is the half-open slice extent; R-GUARDSEQ geometry query yields only after the footprint test")
     run.floor("R-AXIS|", 12)
 
 
@@ -260,6 +268,7 @@ def C13(prog: Program, run: Run, tier: str) -> None:
     run.add(axis.rule_axis(prog, {"_dask", "warp", "_blocks"}), AXIS_DESC)
     run.floor("R-FILL|", 12)
     run.add(findings.lonlat_footprint_validity(prog), "R-GUARDSEQ absence-of-guard clause behind a recorded finding (see known_findings.json)")
+    run.add(round3.pix_bbox_half_open(prog), "R-ROUND tile box is the half-open slice extent")
     run.floor("R-API|", 15)
 
 
@@ -283,6 +292,7 @@ def C15(prog: Program, run: Run, tier: str) -> None:
     run.add(api.rule_api(prog, {"cog._rio"}), "R-API")
     run.add(cog.rule_rio_layout(prog), "R-AXIS band-last input permuted exactly (Y,X,B)->(B,Y,X); R-GUARDSEQ one side-car memory file per layer (zip cannot truncate)")
     run.add(findings.int64_nodata(prog), "R-GUARDSEQ absence-of-guard clause behind a recorded finding (see known_findings.json)")
+    run.add(round3.ovr_sidecar_readdir(prog), "R-GUARDSEQ the Env around the overview copy switches directory listing on")
     run.floor("R-GUARDSEQ|", 5)
 
 
@@ -311,6 +321,7 @@ def C17(prog: Program, run: Run, tier: str) -> None:
     run.add(extra.negative_index(prog, {"roi"}), "R-NEGIDX integer index -> slice(i, i+1) only after negative values were adjusted or rejected")
     run.add(extra.intersect_siblings(prog), "R-SIBLING slice_intersect3 and roi_intersect agree on start/stop roles (max/min) and on the disjoint tests")
     run.add(generic.rule_kind(prog, {"roi"}), "R-KIND functions named for a mid-point return half the sum of the two ends, functions named for a span/shape return their difference")
+    run.add(round3.pad_before_align(prog), "R-ORDER padding precedes alignment")
     run.floor("R-ROUND|", 7)
 
 
